@@ -180,9 +180,46 @@ def p1_p2(ctx, fx, I, B):
             ctx.finding("C05.P2", B, "digest-position", "the digest placed for a hidden claim is not that disclosure's hash at the claim's own position", line=B.term(hb).get("line"))
 
 
+REMOVERS = ("shift_remove_entry", "remove_entry", "swap_remove_entry", "shift_remove", "remove", "swap_remove")
+
+
+def const_str_arrays(fn):
+    """string arrays mentioned in fn: `[a, b, c]` aggregates / `vec![..]` of string constants, and constant items of type [&str; N]"""
+    fv = vals(fn)
+    out = []
+    for bl in fn.blocks:
+        if bl["cleanup"]:
+            continue
+        for si, s in enumerate(bl["stmts"]):
+            if s["k"] == "assign" and "aggregate" in s["rv"] and s["rv"]["aggregate"].get("kind") == "array":
+                vs = [const_value(fv.at_operand(o, bl["id"], si)) for o in s["rv"]["ops"]]
+                if vs and all(isinstance(x, str) for x in vs):
+                    out.append(vs)
+            ops = []
+            if s["k"] == "assign":
+                rv = s["rv"]
+                ops = [rv[k] for k in ("use", "op") if k in rv] + list(rv.get("ops", []))
+            for o in ops:
+                _arr_const(o, out)
+        t = bl["term"]
+        if t["k"] in ("call", "tailcall"):
+            for o in t["args"]:
+                _arr_const(o, out)
+    return out
+
+
+def _arr_const(o, out):
+    c = o.get("const") if isinstance(o, dict) else None
+    v = (c or {}).get("value") or {}
+    if isinstance(v, dict) and "array" in v:
+        vs = [(e or {}).get("str") for e in v["array"]]
+        if vs and all(isinstance(x, str) for x in vs):
+            out.append(vs)
+
+
 def p3(ctx, fx, I):
     ws = [w for w in (common.struct_field_writes(fx, imodel.ISTRUCT, "sd_jwt_payload") or []) if w["how"] in ("assign", "calldest") and w["fn"].name != "issuer::SDJWTIssuer::reset"]
-    A = ws[0]["fn"] if ws else None
+    A = fx.view(ws[0]["fn"].name) if ws else None
     if A is None:
         ctx.missing("C05.P3", "payload assembly", "no function assigns SDJWTIssuer.sd_jwt_payload")
         return
@@ -198,26 +235,29 @@ def p3(ctx, fx, I):
         ctx.ok("C05.P3", A, "sd_alg", "`_sd_alg` = \"sha-256\" is inserted into the payload on every Ok path", line=A.term(good[0][0]).get("line"))
     else:
         ctx.finding("C05.P3", A, "sd_alg", "the payload can be produced without `_sd_alg` = \"sha-256\"")
-    # marking happens after the assignment of the marked claims; order: remove always-visible keys -> mark -> append
-    mark = [b for b, t in A.calls() if t.get("resolved_local") and t.get("resolved") in fx.fns and fx.fns[t["resolved"]].kind != "closure"]
+    # order: remove the always-visible keys -> mark (the crate-local call whose result becomes the payload) -> append them in clear
+    mark = []
+    for w in common.struct_field_writes(fx, imodel.ISTRUCT, "sd_jwt_payload", fns=[A]) or []:
+        if w["how"] in ("assign", "calldest") and w["value"] is not None:
+            for x in walk(w["value"]):
+                if x.kind == "call" and x.d["term"].get("resolved_local") and x.d["term"].get("resolved") in fx.fns and fx.fns[x.d["term"]["resolved"]].kind != "closure" \
+                        and (fx.fns[x.d["term"]["resolved"]].impl_self or "") == imodel.ISTRUCT:
+                    mark.append(x.d["bb"])
+    homes = {A.name} | A.inlined_names()
     removes = []
     for f in fx.fns.values():
-        if f.kind == "closure" and f.parent == A.name:
+        if f.kind == "closure" and f.parent in homes:
             for b, t in f.calls():
-                if t.get("name") in ("shift_remove_entry", "remove_entry", "swap_remove_entry", "shift_remove", "remove"):
+                if t.get("name") in REMOVERS:
                     removes.append(f)
-    keys = None
-    for bl in A.blocks:
-        if bl["cleanup"]:
-            continue
-        for si, s in enumerate(bl["stmts"]):
-            if s["k"] == "assign" and "aggregate" in s["rv"] and s["rv"]["aggregate"].get("kind") == "array":
-                vals_ = [const_value(av.at_operand(o, bl["id"], si)) for o in s["rv"]["ops"]]
-                if vals_ and all(isinstance(x, str) for x in vals_):
-                    keys = vals_
+    arrays = const_str_arrays(A)
+    keys = arrays[-1] if arrays else None
+    for a in arrays:
+        if set(a) == {"iss", "iat", "exp"}:
+            keys = a
     colls = [b for b, t in A.calls() if t.get("name") == "collect" and any(may(k, lambda x: x.kind == "agg" and x.d["agg"].get("kind") == "closure" and x.d["agg"].get("def") in [r.name for r in removes]) for k in av.call_node(b).kids)]
     apps = [b for b, t in A.calls() if t.get("name") in ("append", "extend") and peel(av.call_node(b).kids[0]).kind == "field" and peel(av.call_node(b).kids[0]).d.get("name") == "sd_jwt_payload"]
-    if keys is not None and set(keys) == {"iss", "iat", "exp"} and removes and colls and mark and apps:
+    if keys is not None and set(keys) == {"iss", "iat", "exp"} and len(keys) == 3 and removes and colls and mark and apps:
         c0, m0, a0 = colls[0], mark[0], apps[0]
         order = m0 not in cfg.reachable(A, [0], removed_blocks=[c0]) and a0 not in cfg.reachable(A, [0], removed_blocks=[m0]) and not any(o in cfg.reachable(A, [0], removed_blocks=[a0]) for o in oks)
         if order:
@@ -341,7 +381,9 @@ def p5(ctx, fx, I):
         else:
             ctx.finding("C05.P5", nl, "next_level:%s" % k, "below a %s level the strategy becomes %r (expected %s)" % (k, got, w))
     # Custom continuation: separators
-    inner = [f for n, f in fx.fns.items() if f.kind == "closure" and f.parent == nl.name]
+    # the continuation test lives in a closure of next_level or in a crate-local function it (or its closure) names
+    import callgraph as _cg
+    inner = [fx.fns[n] for n in sorted(_cg.reachable_from(I.g, [nl.name])) if n != nl.name and n in fx.fns and not fx.fns[n].is_macro_generated()]
     seps = None
     for f in inner:
         fv = vals(f)
